@@ -116,11 +116,15 @@ func filteredCodeSet(codeSet *OpcodeSet, query *FieldQuery) (*OpcodeSet, error) 
 
 type Compiler struct {
 	structTypeToCode map[uintptr]*StructCode
+	// slice and map types being compiled: a type that contains itself other than through a struct
+	// (type S []S, type M map[string]M) refers back to its own program, as a recursive struct does
+	listTypeInProgress map[uintptr]struct{}
 }
 
 func newCompiler() *Compiler {
 	return &Compiler{
-		structTypeToCode: map[uintptr]*StructCode{},
+		structTypeToCode:   map[uintptr]*StructCode{},
+		listTypeInProgress: map[uintptr]struct{}{},
 	}
 }
 
@@ -478,7 +482,13 @@ func (c *Compiler) ptrCode(typ *runtime.Type) (*PtrCode, error) {
 	return &PtrCode{typ: typ, value: code, ptrNum: 1}, nil
 }
 
-func (c *Compiler) sliceCode(typ *runtime.Type) (*SliceCode, error) {
+func (c *Compiler) sliceCode(typ *runtime.Type) (Code, error) {
+	typeptr := uintptr(unsafe.Pointer(typ))
+	if _, exists := c.listTypeInProgress[typeptr]; exists {
+		return &RecursiveCode{typ: typ}, nil
+	}
+	c.listTypeInProgress[typeptr] = struct{}{}
+	defer delete(c.listTypeInProgress, typeptr)
 	elem := typ.Elem()
 	code, err := c.listElemCode(elem)
 	if err != nil {
@@ -491,7 +501,13 @@ func (c *Compiler) sliceCode(typ *runtime.Type) (*SliceCode, error) {
 	return &SliceCode{typ: typ, value: code}, nil
 }
 
-func (c *Compiler) arrayCode(typ *runtime.Type) (*ArrayCode, error) {
+func (c *Compiler) arrayCode(typ *runtime.Type) (Code, error) {
+	typeptr := uintptr(unsafe.Pointer(typ))
+	if _, exists := c.listTypeInProgress[typeptr]; exists {
+		return &RecursiveCode{typ: typ}, nil
+	}
+	c.listTypeInProgress[typeptr] = struct{}{}
+	defer delete(c.listTypeInProgress, typeptr)
 	elem := typ.Elem()
 	code, err := c.listElemCode(elem)
 	if err != nil {
@@ -504,7 +520,13 @@ func (c *Compiler) arrayCode(typ *runtime.Type) (*ArrayCode, error) {
 	return &ArrayCode{typ: typ, value: code}, nil
 }
 
-func (c *Compiler) mapCode(typ *runtime.Type) (*MapCode, error) {
+func (c *Compiler) mapCode(typ *runtime.Type) (Code, error) {
+	typeptr := uintptr(unsafe.Pointer(typ))
+	if _, exists := c.listTypeInProgress[typeptr]; exists {
+		return &RecursiveCode{typ: typ}, nil
+	}
+	c.listTypeInProgress[typeptr] = struct{}{}
+	defer delete(c.listTypeInProgress, typeptr)
 	keyCode, err := c.mapKeyCode(typ.Key())
 	if err != nil {
 		return nil, err
@@ -626,6 +648,11 @@ func (c *Compiler) structCode(typ *runtime.Type, isPtr bool) (*StructCode, error
 	indirect := runtime.IfaceIndir(typ)
 	code := &StructCode{typ: typ, isPtr: isPtr, isIndirect: indirect}
 	c.structTypeToCode[typeptr] = code
+	// a cycle that passes through this struct is the struct's to close (as a recursive struct): the
+	// slices and maps around it are not in progress as far as its fields are concerned
+	outer := c.listTypeInProgress
+	c.listTypeInProgress = map[uintptr]struct{}{}
+	defer func() { c.listTypeInProgress = outer }()
 
 	fieldNum := typ.NumField()
 	tags := c.typeToStructTags(typ)
@@ -973,6 +1000,19 @@ func (c *Compiler) linkRecursiveCode(ctx *compileContext) {
 
 		code := copyOpcode(codes.First())
 		code.Op = code.Op.PtrHeadToHead()
+		// the program of a slice or map type may have been compiled behind a pointer: the recursive op
+		// has done the dereferencing before it enters the program
+		switch code.Op {
+		case OpMapPtr:
+			code.Op = OpMap
+			code.PtrNum = 0
+		case OpSlicePtr:
+			code.Op = OpSlice
+			code.PtrNum = 0
+		case OpArrayPtr:
+			code.Op = OpArray
+			code.PtrNum = 0
+		}
 		lastCode := newEndOp(&compileContext{}, recursive.Type)
 		lastCode.Op = OpRecursiveEnd
 
@@ -1003,6 +1043,12 @@ func (c *Compiler) linkRecursiveCode(ctx *compileContext) {
 		compiled.CurLen = curTotalLength
 		compiled.NextLen = nextTotalLength
 		compiled.Linked = true
+		switch code.Op.CodeType() {
+		case CodeSliceHead, CodeMapHead, CodeArrayHead:
+			compiled.IndentDiff = code.Indent
+		default:
+			compiled.IndentDiff = code.Indent - 1
+		}
 
 		recursiveCodes[typeptr] = compiled
 	}
